@@ -1,0 +1,28 @@
+//go:build verif
+
+package jobs
+
+import (
+	"log/slog"
+
+	"reduction.dev/reduction/storage/snapshots"
+)
+
+// Constructor for the C14 verification harness (build tag verif only).
+
+// VerifNewRunningJob returns a Job in the running state over the given snapshot
+// store and assembly, as Job.start leaves it, without a registry, a source
+// splitter or a checkpoint ticker: the harness plays the ticker (the same two
+// steps: Store.CreateCheckpoint, Assembly.StartCheckpoint) and calls the real
+// HandleCreateSavepoint / Handle*CheckpointComplete.
+func VerifNewRunningJob(store *snapshots.Store, assembly *Assembly, errChan chan error) *Job {
+	j := &Job{
+		snapshotStore: store,
+		log:           slog.Default(),
+		assembly:      assembly,
+		status:        newJobStatus(),
+		errChan:       errChan,
+	}
+	j.status.Set(StatusRunning)
+	return j
+}
